@@ -45,6 +45,92 @@ func (P *Prog) EnumSwitches(fn *ssa.Function) []*enumSwitch {
 		return nil
 	}
 	var out []*enumSwitch
+	// an if / else-if chain that compares one expression of an enum type with constants is the same decision written
+	// differently: it is read as a switch with the final else as default
+	inChain := map[*ast.IfStmt]bool{}
+	ast.Inspect(body, func(n ast.Node) bool {
+		ifs, ok := n.(*ast.IfStmt)
+		if !ok || inChain[ifs] {
+			return true
+		}
+		var tag string
+		var named *types.Named
+		coveredVals := map[string]bool{}
+		// cond is X == C (|| X == C ...) over one X of an integer-based named type
+		var eat func(e ast.Expr) bool
+		eat = func(e ast.Expr) bool {
+			switch x := e.(type) {
+			case *ast.ParenExpr:
+				return eat(x.X)
+			case *ast.BinaryExpr:
+				if x.Op == token.LOR {
+					return eat(x.X) && eat(x.Y)
+				}
+				if x.Op != token.EQL {
+					return false
+				}
+				for _, pr := range [][2]ast.Expr{{x.X, x.Y}, {x.Y, x.X}} {
+					tv, isConst := info.Types[pr[1]]
+					if !isConst || tv.Value == nil {
+						continue
+					}
+					nt, isNamed := info.TypeOf(pr[0]).(*types.Named)
+					if !isNamed {
+						continue
+					}
+					if b, ok := nt.Underlying().(*types.Basic); !ok || b.Info()&types.IsInteger == 0 {
+						continue
+					}
+					t := exprStr(P.Fset, pr[0])
+					if tag != "" && t != tag {
+						return false
+					}
+					tag, named = t, nt
+					coveredVals[tv.Value.ExactString()] = true
+					return true
+				}
+			}
+			return false
+		}
+		es := &enumSwitch{Covered: map[string]bool{}, Pos: ifs.Pos()}
+		arms := 0
+		cur := ifs
+		for cur != nil {
+			if cur.Init != nil || !eat(cur.Cond) {
+				return true
+			}
+			arms++
+			inChain[cur] = true
+			switch e := cur.Else.(type) {
+			case *ast.IfStmt:
+				cur = e
+			case *ast.BlockStmt:
+				es.HasDefault = true
+				es.ErrDefault = clauseFails(e.List)
+				cur = nil
+			default:
+				cur = nil
+			}
+		}
+		if arms < 2 || named == nil {
+			return true
+		}
+		all := enumConsts(named)
+		if len(all) < 2 {
+			return true
+		}
+		es.TypeName, es.Tag = typeShort(named), tag
+		for name, v := range all {
+			if coveredVals[v.ExactString()] {
+				es.Covered[name] = true
+			} else {
+				es.Missing = append(es.Missing, name)
+			}
+		}
+		sort.Strings(es.Missing)
+		out = append(out, es)
+		return true
+	})
 	ast.Inspect(body, func(n ast.Node) bool {
 		sw, ok := n.(*ast.SwitchStmt)
 		if !ok || sw.Tag == nil {
